@@ -1294,3 +1294,192 @@ Proof.
   destruct (window_budget_history m tr s Hm (pool_limiter_inv c tr0 m Hc Hm) Hcalm) as (A & _ & B).
   unfold run in *. rewrite fold_left_app. split; [exact A|exact B].
 Qed.
+
+(* ---------------------------------------------------------------- the limiter of the pool IS a run of the limiter model *)
+(* what an event does to the limiter, as a history of the limiter model *)
+Definition lim_evs (s : pool) (e : event) : list Restart.ev :=
+  if is_ack e then [Ack] else
+  match pass_fuel s e with
+  | Some fuel =>
+    if pstate s =? 0
+    then let '(_, n, b) := lim_loop fuel 0 (pass_codes s) (now s) (rst s) in
+         repeat (Step (now s)) (n_charged (pass_codes s) 0 n + (if b then 1 else 0))
+    else []
+  | None => []
+  end.
+
+Fixpoint limiter_history (s : pool) (tr : list event) : list Restart.ev :=
+  match tr with
+  | [] => []
+  | e :: r => lim_evs s e ++ limiter_history (fst (step s e)) r
+  end.
+
+Lemma run_steps : forall nows r, Restart.run r (map Step nows) = steps r nows.
+Proof.
+  induction nows as [|a l IH]; intros r; cbn [map Restart.run steps do_ev]; [reflexivity|].
+  destruct (Restart.step r a) as [r1 o]. rewrite IH. reflexivity.
+Qed.
+
+Lemma run_app_fst : forall l1 l2 r,
+    fst (Restart.run r (l1 ++ l2)) = fst (Restart.run (fst (Restart.run r l1)) l2).
+Proof.
+  induction l1 as [|a l1 IH]; intros l2 r; cbn [app Restart.run]; [reflexivity|].
+  destruct (do_ev r a) as [r1 o]. specialize (IH l2 r1).
+  destruct (Restart.run r1 (l1 ++ l2)) as [x y]. destruct (Restart.run r1 l1) as [u v]. cbn [fst] in *. exact IH.
+Qed.
+
+Lemma repeat_map_step now k : repeat (Step now) k = map Step (repeat now k).
+Proof. induction k as [|k IH]; cbn; [reflexivity|]. rewrite IH. reflexivity. Qed.
+
+Theorem limiter_step_events s e : rst (fst (step s e)) = fst (Restart.run (rst s) (lim_evs s e)).
+Proof.
+  unfold lim_evs. destruct (is_ack e) eqn:Ea.
+  - destruct e; try discriminate.
+    + rewrite ack_resets_limiter. reflexivity.
+    + rewrite stale_ack_resets_limiter. reflexivity.
+  - destruct (pass_fuel s e) as [fuel|] eqn:Ef.
+    + destruct (pstate s =? 0) eqn:Ep.
+      * destruct (lim_loop fuel 0 (pass_codes s) (now s) (rst s)) as [[r2 n] b] eqn:El.
+        destruct (pass_spec s e fuel Ef ltac:(lia) r2 n b El) as (_ & A & _).
+        rewrite A, repeat_map_step, run_steps, (lim_loop_steps _ _ _ _ _ _ _ _ El). reflexivity.
+      * destruct (pass_not_running s e fuel Ef ltac:(lia)) as (_ & A & _). rewrite A. reflexivity.
+    + rewrite limiter_frame; [reflexivity|]. destruct e; try reflexivity; discriminate.
+Qed.
+
+(* in every reachable state the pool's limiter is the limiter model run from
+   restart_state(max_restarts, max_restart_freq or 1) over one Step(now) per charged replacement
+   attempt and one Ack per acknowledgement, in the order of the history *)
+Theorem pool_limiter_is_restart_run c tr :
+  rst (run c tr)
+  = fst (Restart.run (rs_init (c_maxr c) (cfg_maxt c)) (limiter_history (init c) tr)).
+Proof.
+  unfold run. rewrite <- rst_init. generalize (init c).
+  induction tr as [|e tr IH]; intros s; cbn [fold_left limiter_history]; [reflexivity|].
+  rewrite IH, run_app_fst, <- limiter_step_events. reflexivity.
+Qed.
+
+(* ================================================================ boolean checkers for the examples *)
+Definition in_windowb (r : rs) (now : Z) : bool :=
+  match T r with Some t => negb (t =? 0) && (now - t <? maxT r) | None => false end.
+Lemma in_windowb_ok r now : in_windowb r now = true -> in_window r now.
+Proof. unfold in_windowb, in_window. destruct (T r); [lia|discriminate]. Qed.
+
+Definition is_rexc10 (r : ret) : bool := match r with RExc c => c =? 10 | _ => false end.
+
+Fixpoint calmb (s : pool) (tr : list event) : bool :=
+  match tr with
+  | [] => true
+  | e :: r =>
+    negb (is_ack e)
+    && match pass_fuel s e with
+       | Some _ => negb (pstate s =? 0) || (in_windowb (rst s) (now s) && negb (is_rexc10 (snd (step s e))))
+       | None => true
+       end
+    && calmb (fst (step s e)) r
+  end.
+
+Lemma calmb_ok : forall tr s, calmb s tr = true -> calm s tr.
+Proof.
+  induction tr as [|e tr IH]; intros s H; cbn [calmb calm] in *; [exact I|].
+  apply andb_true_iff in H. destruct H as [H H3]. apply andb_true_iff in H. destruct H as [H1 H2].
+  split; [apply negb_true_iff; exact H1|]. split; [|apply IH; exact H3].
+  intros Hf Hp. destruct (pass_fuel s e); [|congruence].
+  rewrite Hp in H2. cbn in H2. apply andb_true_iff in H2. destruct H2 as [A B].
+  split; [apply in_windowb_ok; exact A|]. intros E. rewrite E in B. discriminate.
+Qed.
+
+(* ================================================================ examples (non-vacuity) *)
+(* ---- 2: the clean pass.  Pool of 3; one job run to the end by worker 0; workers 0 and 1 leave with
+   the recycle status / status 0; the pass replaces both without consulting the limiter *)
+Definition cp_cfg := mkcfg 3 None None None (Some 1) 100 false false.
+Definition cp_tr : list event :=
+  [EApply None None None None; EAck 0 None 0; EReady 0 None true 7; EExit 0 155; EExit 1 0].
+
+Example clean_pass_witness :
+  let s := run cp_cfg cp_tr in
+  pstate s = 0
+  /\ Forall (fun c => clean_code c = true) (pass_codes s)
+  /\ nprocs s - Z.of_nat (length (kept s)) <= Z.of_nat (length (reaped s))
+  /\ (pass_codes s, kept s, R (rst s)) = ([0; 155], [2], 0)
+  /\ (exists x, get_job s 0 = Some x /\ ready x = true /\ value x = Some (PValue 7))
+  /\ (snd (do_tick s), wlist (fst (do_tick s)), R (rst (fst (do_tick s)))) = (RNone, [2; 3; 4], 0).
+Proof.
+  split; [vm_compute; reflexivity|]. split.
+  - assert (E : pass_codes (run cp_cfg cp_tr) = [0; 155]) by (vm_compute; reflexivity).
+    cbn zeta. rewrite E. repeat constructor.
+  - split; [vm_compute; discriminate|]. split; [vm_compute; reflexivity|]. split.
+    + eexists. split; [vm_compute; reflexivity|]. split; reflexivity.
+    + vm_compute. reflexivity.
+Qed.
+
+(* the other side of the hypothesis: one recycled worker and grow(1) in the same pass -- two workers
+   are missing, one was reaped: the second replacement has no exit status on record, IS charged
+   (IndexError path) and, with the budget used up, the pass raises although every exit was clean *)
+Example clean_exits_but_short_pool_is_charged :
+  let s := run cp_cfg [EExit 2 1; ETick; EExit 0 155; EGrow 1] in
+  Forall (fun c => clean_code c = true) (pass_codes s)
+  /\ (missing s, length (reaped s), R (rst s)) = (2%nat, 1%nat, 1)
+  /\ n_charged (pass_codes s) 0 (missing s) = 1%nat
+  /\ (snd (do_tick s), wlist (fst (do_tick s))) = (RExc 10, [1; 3; 4]).
+Proof.
+  split.
+  - assert (E : pass_codes (run cp_cfg [EExit 2 1; ETick; EExit 0 155; EGrow 1]) = [155]) by (vm_compute; reflexivity).
+    cbn zeta. rewrite E. repeat constructor.
+  - split; [vm_compute; reflexivity|]. split; vm_compute; reflexivity.
+Qed.
+
+(* no exited worker left, reaped ones gone *)
+Example tick_no_exited_left_witness :
+  let s := run cp_cfg cp_tr in
+  (reaped s, wlist s, wlist (fst (do_tick s))) = ([1; 0], [0; 1; 2], [2; 3; 4]).
+Proof. vm_compute. reflexivity. Qed.
+
+(* ---- 3: the limiter at pool level.  max_restarts = 2, window of 100 s *)
+Definition lb_cfg := mkcfg 3 None None None (Some 2) 100 false false.
+(* a first crash opens the window (T = 1000) and uses one unit of the budget *)
+Definition lb_tr0 : list event := [EExit 0 1; ETick].
+(* inside the window: another crash, replaced 5 s later (R = 2); a clean exit, replaced without
+   charge; a third crash *)
+Definition lb_tr : list event := [EExit 1 1; EAdvance 5; ETick; EExit 2 0; ETick; EExit 3 1].
+
+Example pool_limiter_inv_witness :
+  let s := run lb_cfg (lb_tr0 ++ lb_tr) in
+  Inv 2 (rst s) /\ (R (rst s), T (rst s)) = (2, Some 1000)
+  /\ limiter_history (init lb_cfg) (lb_tr0 ++ lb_tr) = [Step 1000; Step 1005].
+Proof.
+  split; [apply pool_limiter_inv; [reflexivity|lia]|]. split; vm_compute; reflexivity.
+Qed.
+
+Example pass_budget_witness :
+  let s := run lb_cfg (lb_tr0 ++ [EExit 1 1; EExit 2 1]) in
+  pass_fuel s ETick = Some 2%nat /\ pstate s = 0 /\ Inv 2 (rst s) /\ in_window (rst s) (now s)
+  /\ R (rst s) = 1 /\ n_charged (pass_codes s) 0 2 = 2%nat
+  /\ snd (step s ETick) = RExc 10 /\ abn_started s ETick = 1%nat
+  /\ wlist (fst (step s ETick)) = [3; 4] /\ R (rst (fst (step s ETick))) = 0.
+Proof.
+  split; [vm_compute; reflexivity|]. split; [vm_compute; reflexivity|].
+  split; [apply pool_limiter_inv; [reflexivity|lia]|].
+  split; [apply in_windowb_ok; vm_compute; reflexivity|].
+  repeat split; vm_compute; reflexivity.
+Qed.
+
+Example window_budget_history_witness :
+  let s := run lb_cfg lb_tr0 in
+  calm s lb_tr /\ R (rst s) = 1 /\ abn_total s lb_tr = 1%nat
+  /\ (let s1 := run_from s lb_tr in
+      pass_fuel s1 ETick = Some 1%nat /\ pstate s1 = 0 /\ in_window (rst s1) (now s1)
+      /\ 2 - R (rst s1) < Z.of_nat (n_charged (pass_codes s1) 0 1)
+      /\ snd (step s1 ETick) = RExc 10 /\ abn_total s (lb_tr ++ [ETick]) = 1%nat).
+Proof.
+  split; [apply calmb_ok; vm_compute; reflexivity|].
+  split; [vm_compute; reflexivity|]. split; [vm_compute; reflexivity|].
+  cbn zeta. split; [vm_compute; reflexivity|]. split; [vm_compute; reflexivity|].
+  split; [apply in_windowb_ok; vm_compute; reflexivity|].
+  split; [vm_compute; reflexivity|]. split; vm_compute; reflexivity.
+Qed.
+
+(* the limiter is left alone by everything but passes and acknowledgements *)
+Example limiter_frame_witness :
+  let s := run lb_cfg lb_tr0 in
+  (R (rst s), R (rst (fst (step s (EShrink 1)))), R (rst (fst (step s (EAck 0 None 1))))) = (1, 1, 0).
+Proof. vm_compute. reflexivity. Qed.
